@@ -14,7 +14,7 @@ def run(cmd, cwd, env):
 
 rows = []
 for prop in sorted(os.listdir(INC)):
-    for k in (1, 2, 3, 4, 5, 6):
+    for k in (1, 2, 3, 4, 5, 6, 7):
         d = os.path.join(INC, prop)
         diff, demo, meta = (os.path.join(d, f"m{k}{s}") for s in (".diff", "_demo.py", "_meta.json"))
         if not os.path.exists(diff):
